@@ -93,3 +93,54 @@ def check_axis_lookup(run, rid, prog, floor=20):
                        loc=f.loc(ty.errors[0][0]) if ty.errors else f.loc(f.node), sample={"expressions_typed": ty.nchecked})
     if n < floor:
         raise AnalysisError("ValueAxis look-ups: only %d expressions typed (%d confirmed)" % (n, floor))
+
+
+def check_created_from_own_data(run, rid, prog, floor=3):
+    """A basis-managed object that a method creates from the data of `self` owns its array.  The managed read
+    `self.data[...]` hands out (a view of) the stored array in the current basis; an operator constructed on it shares
+    storage with self: when the context is left, self is transformed back in place - the new object's values change with
+    it - and then the new object, registered in the same context, is transformed back once more.  Every constructor call
+    of a class with basis-managed data whose `data=` argument is rooted at self.data / self._data passes a copy
+    (`.copy()`, numpy.array(...))."""
+    from ..loader import ClassInfo
+    n = 0
+    bm = prog.cls("quantarhei.core.managers.BasisManaged")
+    for f in prog.all_functions():
+        if ".tests." in f.qualname or ".wizard." in f.qualname:
+            continue
+        for c in walk_no_nested(f.node):
+            if not isinstance(c, ast.Call):
+                continue
+            kw = [k for k in c.keywords if k.arg == "data"]
+            if not kw:
+                continue
+            v = kw[0].value
+            core = v
+            copied = False
+            while True:
+                if isinstance(core, ast.Call) and isinstance(core.func, ast.Attribute) and core.func.attr == "copy" and not core.args:
+                    core, copied = core.func.value, True
+                elif isinstance(core, ast.Call) and (call_name(core) or "").split(".")[-1] in ("array", "real", "imag", "conj") and core.args:
+                    copied = copied or (call_name(core) or "").split(".")[-1] == "array"
+                    core = core.args[0]
+                elif isinstance(core, ast.Subscript):
+                    core = core.value
+                else:
+                    break
+            if not (isinstance(core, ast.Attribute) and core.attr in ("data", "_data") and norm(core.value) == "self"):
+                continue
+            try:
+                tgt = prog.resolve_name(f.module, call_name(c).split(".")[-1], f) if call_name(c) else None
+            except Exception:
+                tgt = None
+            if not (isinstance(tgt, ClassInfo) and bm in [x for x in prog.mro(tgt) if x is not None]):
+                continue
+            n += 1
+            prog.consulted.add(f.relpath)
+            run.obligation(rid, f.short, copied, key="created-object-owns-its-data:" + (call_name(c) or "")[:30],
+                           message="%s creates `%s` on (a view of) its own stored array: inside a basis context the two objects share "
+                                   "storage - on leaving the context self is transformed back in place, which changes the new object, "
+                                   "and the new object is then transformed back a second time" % (f.short, norm(c)[:80]),
+                           loc=f.loc(c), sample={"call": norm(c)[:80]})
+    if n < floor:
+        raise AnalysisError("%s: only %d managed objects are created from the data of self (%d confirmed)" % (rid, n, floor))
